@@ -238,6 +238,9 @@ class Module:
         self.relpath = relpath
         self.source = source
         self.tree = ast.parse(source, filename=relpath)
+        if os.environ.get('PWSA_NO_ALPHA') != '1':
+            from . import alpha
+            self.renamed = alpha.canonicalise(self.tree, relpath)
         self.classes = {}
         self.functions = {}
         self.consts = {}      # name -> value node (last module-level assign)
@@ -598,8 +601,47 @@ def kwarg(call, name):
     return None
 
 
+def _canon_bound(node):
+    """unparse(node) with the variables bound by comprehensions and lambdas
+    renamed positionally, so that `[f(k) for k in xs]` equals
+    `[f(j) for j in xs]`"""
+    import copy
+    node = copy.deepcopy(node)
+    counter = [0]
+
+    def bound_names(n):
+        out = []
+        if isinstance(n, (ast.ListComp, ast.SetComp, ast.GeneratorExp,
+                          ast.DictComp)):
+            for g in n.generators:
+                out += [x.id for x in ast.walk(g.target)
+                        if isinstance(x, ast.Name)]
+        elif isinstance(n, ast.Lambda):
+            out += [a.arg for a in n.args.args]
+        return out
+
+    def rec(n):
+        names = bound_names(n)
+        ren = {}
+        for nm in names:
+            if nm not in ren:
+                ren[nm] = '_b%d' % counter[0]
+                counter[0] += 1
+        if ren:
+            for x in ast.walk(n):
+                if isinstance(x, ast.Name) and x.id in ren:
+                    x.id = ren[x.id]
+                elif isinstance(x, ast.arg) and x.arg in ren:
+                    x.arg = ren[x.arg]
+        for c in ast.iter_child_nodes(n):
+            rec(c)
+    rec(node)
+    return unparse(node)
+
+
 def eqsrc(node, src):
-    """node is structurally the expression/statement written as `src`."""
+    """node is structurally the expression/statement written as `src`
+    (up to the names of comprehension / lambda variables)."""
     try:
         tree = ast.parse(src)
     except SyntaxError:
@@ -607,4 +649,4 @@ def eqsrc(node, src):
     want = tree.body[0]
     if isinstance(want, ast.Expr) and not isinstance(node, ast.stmt):
         want = want.value
-    return node is not None and unparse(node) == unparse(want)
+    return node is not None and _canon_bound(node) == _canon_bound(want)
